@@ -3,7 +3,7 @@
 From Coq Require Import List NArith Bool Lia String.
 From Breadlog Require Import Model.Peg Model.Text Model.Regex Model.Glue Model.Tables.
 From Breadlog Require Import Gen.Grammar Gen.Consts.
-From Breadlog Require Import Proofs.PegFacts Proofs.RuleLemmas Proofs.GlueSpec Proofs.StatementLemmas Proofs.FileSpec.
+From Breadlog Require Import Proofs.PegFacts Proofs.RuleLemmas Proofs.GlueSpec Proofs.StatementLemmas Proofs.ArgLemmas Proofs.FileSpec.
 From Breadlog Require Import Properties.Common.
 Import ListNotations.
 Open Scope N_scope.
@@ -44,7 +44,7 @@ Proof. exact (one_macro_skipped the_params). Qed.
    layout -- the finder returns NOTHING when no statement carries a configured name ... *)
 Theorem C11_canonical_nothing_else : forall cfg its fin,
   items_ok its fin ->
-  (forall l n l1 us, In (l, IStmt n l1 us) its -> macro_of_interest (render_name n) cfg = false) ->
+  (forall l it n, In (l, it) its -> stmt_name it = Some n -> macro_of_interest (render_name n) cfg = false) ->
   find cfg (render_items its fin) = Done [].
 Proof. exact find_canonical_none. Qed.
 
@@ -56,8 +56,11 @@ Theorem C11_canonical_only_statements : forall cfg its fin,
   let code := render_items its fin in
   find cfg code = Done (expected cfg code its []) /\
   (forall pre n l us, macro_of_interest (render_name n) cfg = false -> step_entries (stmt_step cfg code pre n l us) = []) /\
+  (forall pre n a, macro_of_interest (render_name n) cfg = false -> step_entries (stmt_stepA cfg code pre n a) = []) /\
   (forall pre n l us, directive_check the_params (p_ignore the_params) code (blen pre) (p_comment_re the_params) = Some true ->
-                      stmt_step cfg code pre n l us = Skip).
+                      stmt_step cfg code pre n l us = Skip) /\
+  (forall pre n a, directive_check the_params (p_ignore the_params) code (blen pre) (p_comment_re the_params) = Some true ->
+                   stmt_stepA cfg code pre n a = Skip).
 Proof. exact find_canonical_only_statements. Qed.
 
 (* NOT proved: that configured names without a literal message (bracketed macro calls whose arguments
